@@ -214,7 +214,7 @@ def check(ctx):
     # uses the raw alphas, so the estimator is unbiased only if every weight vector an iteration is
     # run with sums to one (C08/R3: last write = division by the sum; first weights: C08/R5)
     share(ctx, 'C08', 'R5/C08.', ['R3.normalised', 'R5.', 'R6.'])
-    share(ctx, 'C09', 'R5/C09.', ['R1.', 'R2.'])
+    share(ctx, 'C09', 'R5/C09.', ['R1.', 'R2.', 'R4.channel_from_selector'])
     # every coordinate of the hypercube must be sampled: one fresh canonical number per dimension
     share(ctx, 'C10', 'R7/C10.', ['R1.draws_per_call'])
     share(ctx, 'C17', 'R7/C17.', ['R4.unit_interval', 'R1.same_map_object', 'R1.same_objects'])
